@@ -370,9 +370,12 @@ def decide_V(prop, tier, seed, t0, replay):
         info = chan_v.run(seed, tier)
     an = chan_v.analyse(info["dirs"])
     oracle = [o for o in an["oracle"] if o["property"] == prop]
-    if prop in ("C08", "C09"):
-        for z in an["zst_bad"]:
-            oracle.append({"property": prop, "message": f"zero-size elements: {z['impl']} expected {z['expected']}", "request": "zst " + z["script"], "impl": z["impl"], "profile": z["profile"]})
+    # side scripts (zero-size elements, plain-data inputs with owning outputs, refusal of zero-size pairs): the expected outcome is
+    # computed straight from the script; attributed by what was expected: success -> C08, refusal -> C10, failure cleanup -> C09
+    for z in an["zst_bad"]:
+        which = "C08" if z["expected"].startswith("done") else "C10" if z["expected"].startswith("refused") else "C09"
+        if which == prop:
+            oracle.append({"property": prop, "message": f"element types without identity (zero-size / no drop glue on the input side): {z['impl']} expected {z['expected']}", "request": "zst " + z["script"], "impl": z["impl"], "profile": z["profile"]})
     proof_ok = not pr["problems"]
     tie_ok = an.get("n_disagree", 0) == 0 and not info["errors"]
     rc = 0; violations = 0; lines = []
